@@ -101,6 +101,11 @@ class Budget:
         # counters need: a floor of cases is always run (the shard watchdog in the runner is far more generous)
         self.min_cases = min(max_cases, max(20, max_cases // 8))
         self.n = 0
+        # enumerating layers (exhaustive small scope) stop here: they are meant to fit into the budget several times over
+        self.hard_deadline = time.time() + 3 * max_seconds + 30
+
+    def overdue(self):
+        return time.time() > self.hard_deadline
 
     def more(self):
         if self.n >= self.max_cases:
